@@ -22,13 +22,13 @@ def sel(module, quick_re, thorough_re=None):
 # --- planner step family -----------------------------------------------------------------------
 # quick: shapes 1x1x1 1x2x1 2x1x1 2x2x1, 1 read + 1 write per group and for the new system,
 #        every barrier position, 0/1 dependencies (+ 2 / 2-equal on 2x1x1 and 1x2x1)
-STEP_Q = (r'^step_s(1g1l1|1g2l1|2g1l1|2g2l1)_r1w1_b\d_d(0|1|2|2e)_n11$|^step_s(2g1l1|2g2l1)_r1w1_b[01]_d3aba_n11$|^step_s1g1l[34]_r1w1_b0_d[01]_n11$|^step_s1g2l5_r1w1_b0_d0_n11$|^step_s1g2l1_r2w1_b0_d[01]_n12$|^step_s1g1l1_r1w1_b0_d0_n(13|31)$|^step_s1g2l1_r2w1_b0_d0_n13$|^step_s1g1l1_r(3w1|1w3)_b0_d0_n11$')
+STEP_Q = (r'^step_s(1g1l1|1g2l1|2g1l1|2g2l1)_r1w1_b\d_d(0|1|2|2e)_n11$|^step_s(2g1l1|2g2l1)_r1w1_b[01]_d3aba_n11$|^step_s1g1l[34]_r1w1_b0_d[01]_n11$|^step_s1g2l5_r1w1_b0_d0_n11$|^step_s1g2l1_r2w1_b0_d[01]_n12$|^step_s1g1l1_r1w1_b0_d0_n(13|31)$|^step_s1g2l1_r2w1_b0_d0_n13$|^step_s1g1l1_r(3w1|1w3)_b0_d0_n11$|^step_s(1g1l1|1g2l1)_r1w1_b0_d5s_n11$|^step_s2g1l1_r1w1_b1_d5s_n11$')
 STEP_T = r'^step_'
 STEP_FUNCS = ['StagesBuilder::insertion_target', 'StagesBuilder::find_conflict', 'StagesBuilder::remove_ids',
               'StagesBuilder::improves_balance', 'Conflict::add', 'dispatch::util::check_intersection',
               '<ResourceId as PartialEq>::eq']
 STEP_BOUNDS = {'shapes_quick': '1x1x1 1x2x1 2x1x1 2x2x1 (+1x1x3 1x1x4 for capacity)', 'shapes_thorough': 'adds 1x2x2 1x3x1 3x1x1 2x2x2 1x1x3 1x1x4 1x2x4 2x1x2 3x2x1 and 2 reads/2 writes on 1x2x1 2x1x1 2x2x1',
-               'resources': '2 static types x 3 dynamic ids', 'reads/writes per group': '1 (quick; 2 and 3 on 1x1x1 / 1x2x1) / <=2', 'reads/writes of the new system': '1 (quick; 2 and 3 on 1x1x1 / 1x2x1) / <=2', 'dependencies': '0, 1, 2 distinct, 2 equal, 3 as [a,b,a]',
+               'resources': '2 static types x 3 dynamic ids', 'reads/writes per group': '1 (quick; 2 and 3 on 1x1x1 / 1x2x1) / <=2', 'reads/writes of the new system': '1 (quick; 2 and 3 on 1x1x1 / 1x2x1) / <=2', 'dependencies': '0, 1, 2 distinct, 2 equal, 3 as [a,b,a], 5 equal (beyond the inline capacity of the list)',
                'barrier': 'every value in {0, S-1, S}', 'unwinding': 'per instance, unwinding assertions on'}
 STEP_ASSUME = ['pre-state: five tables of identical concrete shape, the ids 0..n placed in the slots by a solver-chosen permutation, accumulated time of a group of l systems in l..=5l (Inv I1,I2,I4,I5)',
                'the new system\'s reads reach insertion_target sorted and de-duplicated (insert does that before the call; E2 spec_insert checks it), its writes in any order with duplicates; group tables are arbitrary lists',
